@@ -23,6 +23,12 @@ read outside the "updated in place, not yet assigned again" state is also judged
 CURRENT parameters and input, with a brand-new Processor as control (signature
 `history-dependent-source-distribution`).
 
+Imperfection LATTICE: which of brightness / g2 / indistinguishability / transmittance are non-ideal (transmittance
+also 0) x the multiphoton model = 48 cells; every cell goes through every kind of observation (required branches
+`imp:<cell>:<kind>`), and long-lived Processors are swept across every edge of the lattice (one field of the held
+NoiseModel moved between its ideal and a non-ideal value in place, then re-assigned).  A wrong shortcut predicate
+(`is_perfect`, `partially_distinguishable`, truthiness tests) shows only in the cells it misjudges.
+
 `generate_samples` is checked by a goodness-of-fit TEST (exact binomial tails, Bonferroni, total
 false-alarm level 1e-9) against the exact model distribution — a statistical test, not a proof.
 """
@@ -1402,7 +1408,11 @@ def run(chk: core.Check):
                 "probability_distribution, _compute_prob_table/cache_prob_table, "
                 "generate_samples (goodness-of-fit TEST at false-alarm level 1e-9, not a proof; two thirds of the "
                 "filtered requests follow a different request on the same Source object), constructor "
-                "rejections; fixed parameter classes x ALL inputs with <=3 modes and 0..2 (thorough 0..3) photons "
+                "rejections; the imperfection lattice (each of brightness/g2/indistinguishability/transmittance ideal or "
+                "not, transmittance also 0, x both multiphoton models = 48 cells) x every kind of observation incl. "
+                "filtered samples requested after a stricter / weaker filter for the same photon number or the same "
+                "filter for another photon number on the same Source, and a long-lived Processor swept across every "
+                "edge of the lattice; fixed parameter classes x ALL inputs with <=3 modes and 0..2 (thorough 0..3) photons "
                 "per mode, plus random tuples; distinct = distinct settings; non-trivial = imperfect source and at "
                 "least one requested photon")
     chk.assumptions = [
